@@ -29,10 +29,12 @@ type pMessage struct {
 	Fields []*pField
 	Opts   map[string]string
 	File   string
+	GoPkg  string // option go_package of the file
 }
 
 type protoSet struct {
 	Msgs map[string]*pMessage // by full name
+	ByGo map[string]*pMessage // by "<go import path>.<GoTypeName>"
 }
 
 type ptok struct {
@@ -99,8 +101,10 @@ type pparser struct {
 	t    []ptok
 	i    int
 	pkg  string
+	gopk string
 	file string
 	set  *protoSet
+	made []*pMessage
 }
 
 func (p *pparser) peek() ptok {
@@ -241,10 +245,11 @@ func (p *pparser) message(prefix string) {
 		}
 	}
 	p.set.Msgs[m.Full] = m
+	p.made = append(p.made, m)
 }
 
 func parseProtoDir(dir string) (*protoSet, []string, error) {
-	set := &protoSet{Msgs: map[string]*pMessage{}}
+	set := &protoSet{Msgs: map[string]*pMessage{}, ByGo: map[string]*pMessage{}}
 	var files []string
 	err := filepath.Walk(dir, func(path string, info os.FileInfo, err error) error {
 		if err != nil {
@@ -268,7 +273,14 @@ func parseProtoDir(dir string) (*protoSet, []string, error) {
 		for p.peek().k != "eof" {
 			t := p.next()
 			switch t.s {
-			case "syntax", "import", "option":
+			case "syntax", "import":
+				p.skipTo(";")
+			case "option":
+				if p.peek().s == "go_package" {
+					p.next()
+					p.expect("=")
+					p.gopk = p.next().s
+				}
 				p.skipTo(";")
 			case "package":
 				p.pkg = p.next().s
@@ -282,6 +294,10 @@ func parseProtoDir(dir string) (*protoSet, []string, error) {
 			default:
 				return nil, nil, fmt.Errorf("%s: unexpected top-level token %q", f, t.s)
 			}
+		}
+		for _, m := range p.made {
+			m.GoPkg = p.gopk
+			set.ByGo[p.gopk+"."+strings.ReplaceAll(m.Name, ".", "_")] = m
 		}
 	}
 	return set, files, nil
@@ -311,12 +327,15 @@ func (s *protoSet) resolve(from *pMessage, ref string) *pMessage {
 }
 
 // ---- schema text for the Lean driver -------------------------------------------------------
-//   i<num>.<l|w|u|b>.<0|1>      varint field (int64/uint64, int32, uint32, bool), always-written flag
+//   i<num>.<l|w|u|y|b>.<0|1>    varint field (int64/uint64, int32, uint32, uint8, bool), always-written flag
 //   b<num>.<b|s|n>.<0|1>        bytes / string / customtype BigInt|BigDec
 //   m<num>.<0|1>{f,f,...}       embedded message, nullable flag
 //   r<num>.<b|s>                repeated bytes / string
 //   R<num>{f,f,...}             repeated message (also map entries)
 //   o{<num>{f,...}|<num>{...}}  oneof of message-typed members
+
+// goIntKind (set by the harness) reports the integer kind of the generated Go struct field.
+var goIntKind func(full string, num int) string
 
 var scalarKinds = map[string]string{"int64": "l", "uint64": "l", "int32": "w", "uint32": "u", "bool": "b"}
 
@@ -366,6 +385,12 @@ func (s *protoSet) specOfField(m *pMessage, f *pField, depth int) string {
 	if k, ok := scalarKinds[f.Type]; ok {
 		if f.Repeated {
 			panic(unsupported{"repeated scalar " + f.Type})
+		}
+		if _, cast := f.Opts["gogoproto.casttype"]; cast && goIntKind != nil {
+			// a casttype changes the Go integer width the generated code truncates to
+			if gk := goIntKind(m.Full, f.Num); gk != "" {
+				k = gk
+			}
 		}
 		return fmt.Sprintf("i%d.%s.0", f.Num, k)
 	}
